@@ -135,6 +135,12 @@ def run_case(ctx, i, rng):
     if rng.random() < 0.4:
         sc += scripts.random_script(rng, case, kinds=['hold', 'hold_point'],
                                     max_cmds=2, horizon=8)
+    if rng.random() < 0.35:
+        # removals / manual sets before the reload leave pooled tasks whose
+        # prerequisite state differs from what the DB records of outputs
+        sc += scripts.random_script(rng, case, kinds=['remove', 'remove',
+                                                      'set', 'trigger'],
+                                    max_cmds=3, horizon=12)
     for _ in range(rng.choice([1, 1, 2])):
         v, g2, info = variant_of(rng, gt)
         act = {'at': rng.randint(2, 16), 'cmd': 'reload_workflow',
